@@ -2,6 +2,7 @@ package props
 
 import (
 	"bytes"
+	"context"
 	"fmt"
 	"os"
 	"os/exec"
@@ -10,6 +11,7 @@ import (
 	"sort"
 	"strings"
 	"testing"
+	"time"
 
 	"github.com/sassoftware/go-rpmutils"
 	"pgregory.net/rapid"
@@ -98,9 +100,16 @@ func dpkgDebAccepts(b []byte, vs *vlist) {
 		return
 	}
 	for _, args := range [][]string{{"-I", p}, {"-c", p}} {
-		cmd := exec.Command("dpkg-deb", args...)
+		ctx, cancel := context.WithTimeout(context.Background(), 20*time.Second)
+		cmd := exec.CommandContext(ctx, "dpkg-deb", args...)
 		cmd.Env = append(os.Environ(), "LC_ALL=C")
 		out, err := cmd.CombinedOutput()
+		timedOut := ctx.Err() != nil
+		cancel()
+		if timedOut {
+			vs.add("C04.deb.dpkg-deb-hangs", "deb", "dpkg-deb %s did not finish within 20 s on this package", args[0])
+			return
+		}
 		if err != nil {
 			vs.add("C04.deb.dpkg-deb-rejects", "deb", "dpkg-deb %s: %v: %s", args[0], err, strings.TrimSpace(string(out)))
 			return
